@@ -446,7 +446,13 @@ class HostGen:
         self.kinds.add(kind)
         if kind == "aborted-loop":
             # a loop context whose body raises at once (before issuing anything); the application catches the error
-            return [("aborted_loop", 1 + ch.draw(3, "abn"))]
+            n_ab = 1 + ch.draw(3, "abn")
+            forms = ["loop_ctx", "loop_body", "loop_until"]
+            opnd = self.fut_operand() if self.ok("if") and ch.flag(1, 2, "abif") else None
+            if opnd is not None:
+                forms += ["if_cb", "if_ctx"]
+            form = forms[ch.draw(len(forms), "abform")]
+            return [("aborted_loop", n_ab, form, opnd if form.startswith("if") else None)]
         if kind == "qblock":
             return self.qubit_block()
         if kind == "qubit":
